@@ -274,7 +274,7 @@ def _enumerate(ctx: core.Ctx, shard: int, nshards: int, tier: str) -> None:
 
 @st.composite
 def random_cases(draw):
-    r = draw(st.randoms(use_true_random=False))
+    r = core.rng(draw)
     t = r.choice(["list", "list", "range", "rangevar", "dict", "str", "nil"])
     n = r.randint(0, 8) if t not in ("str", "nil") else r.randint(0, 2)
     vals = _arg_values(n)
